@@ -2,6 +2,8 @@ import Driver.Proto
 import Driver.OpsFit
 import Driver.OpsClt
 import Driver.OpsFlows
+import Driver.OpsRewrite
+import Driver.OpsTopDown
 /-
 Line-protocol driver: one JSON object per input line, one answer line per input line.
 Run with `lake env lean --run Driver/Main.lean < ops.jsonl`.
@@ -62,7 +64,9 @@ def handle (st : St) (j : Json) : Except String (St × String) := do
     let exts : List (Option (Except String String)) := [
       handleFit o j,
       handleClt o j,
-      handleFlows o j ]
+      handleFlows o j,
+      handleRewrite st.net st.root o j,
+      handleTopDownD st.net st.root st.dom o j ]
     match exts.findSome? id with
     | some r => do let a ← r; pure (st, a)
     | none => .error s!"unknown op {o}"
